@@ -4,6 +4,7 @@ package interp
 // (assembly, unsafe, reflection) or that should not be (formatting).
 
 import (
+	"reflect"
 	"fmt"
 	"go/token"
 	"go/types"
@@ -831,8 +832,35 @@ func init() {
 		return &cell
 	}
 	externals["time.AfterFunc"] = func(fr *frame, a []value) value {
-		stubHit(fr, "time.AfterFunc(never fires)")
-		return newTimer(fr, "Timer")
+		// never fires on its own; verifrt.FireTimers() runs the callbacks that are armed and not stopped
+		stubHit(fr, "time.AfterFunc(fires only at verifrt.FireTimers)")
+		t := newTimer(fr, "Timer")
+		i := fr.i
+		old := i.timers
+		i.timers = append(append([]*pendingTimer(nil), old...), &pendingTimer{cell: t, fn: a[1]})
+		i.onUndo(func() { i.timers = old })
+		return t
+	}
+	externals[rtPkg+"FireTimers"] = func(fr *frame, a []value) value {
+		i := fr.i
+		pend := i.timers
+		i.timers = nil
+		i.onUndo(func() { i.timers = pend })
+		for _, t := range pend {
+			// timers armed by the standard library (crypto/rand's "blocked" warning, ...) stay silent
+			var f *ssa.Function
+			switch fn := t.fn.(type) {
+			case *closure:
+				f = fn.Fn
+			case *ssa.Function:
+				f = fn
+			}
+			if f != nil && f.Pkg != nil && !strings.Contains(strings.SplitN(f.Pkg.Pkg.Path(), "/", 2)[0], ".") {
+				continue
+			}
+			call(i, fr, token.NoPos, t.fn, nil)
+		}
+		return nil
 	}
 	externals["time.NewTimer"] = func(fr *frame, a []value) value {
 		stubHit(fr, "time.NewTimer(never fires)")
@@ -846,7 +874,20 @@ func init() {
 		stubHit(fr, "time.After(never fires)")
 		return &chanv{cap: 1}
 	}
-	externals["(*time.Timer).Stop"] = func(fr *frame, a []value) value { return true }
+	externals["(*time.Timer).Stop"] = func(fr *frame, a []value) value {
+		i := fr.i
+		tc, _ := a[0].(*value)
+		for k, t := range i.timers {
+			if t.cell == tc {
+				old := i.timers
+				nw := append(append([]*pendingTimer(nil), old[:k]...), old[k+1:]...)
+				i.timers = nw
+				i.onUndo(func() { i.timers = old })
+				return true
+			}
+		}
+		return true
+	}
 	externals["(*time.Timer).Reset"] = func(fr *frame, a []value) value { return true }
 	externals["(*time.Ticker).Stop"] = extNoop
 	externals["(*time.Ticker).Reset"] = extNoop
@@ -897,12 +938,37 @@ func init() {
 	// v2 (used by the RPC endpoints to detect "result did not change"): the same structural hash; struct
 	// tags (hash:"ignore") are not honoured, so a change confined to an ignored field counts as a change
 	externals["github.com/mitchellh/hashstructure/v2.Hash"] = func(fr *frame, a []value) value {
-		return externals["github.com/mitchellh/hashstructure.Hash"](fr, a[:1])
+		stubHit(fr, "hashstructure/v2.Hash(structural FNV, hash:\"ignore\" honoured)")
+		var sb hashBuf
+		if in, ok := a[0].(iface); ok && in.t != nil {
+			serialiseT(&sb, in.t, in.v, 0)
+		} else {
+			serialise(&sb, a[0], 0)
+		}
+		sb.flush()
+		var h uint64 = 14695981039346656037
+		for _, c := range sb.chunks {
+			if c.t != nil {
+				panic(unsupported{"hashstructure/v2.Hash of symbolic content"})
+			}
+			for k := 0; k < len(c.s); k++ {
+				h ^= uint64(c.s[k])
+				h *= 1099511628211
+			}
+		}
+		if h == 0 {
+			h = 1
+		}
+		return tuple{h, iface{}}
 	}
 	externals["github.com/mitchellh/hashstructure.Hash"] = func(fr *frame, a []value) value {
-		stubHit(fr, "hashstructure.Hash(structural FNV)")
+		stubHit(fr, "hashstructure.Hash(structural FNV, hash:\"ignore\" honoured)")
 		var sb hashBuf
-		serialise(&sb, a[0], 0)
+		if in, ok := a[0].(iface); ok && in.t != nil {
+			serialiseT(&sb, in.t, in.v, 0)
+		} else {
+			serialise(&sb, a[0], 0)
+		}
 		sb.flush()
 		var h uint64 = 14695981039346656037
 		var ht *Term // non-nil once a symbolic byte has been folded in
@@ -930,6 +996,64 @@ func init() {
 			h = 1
 		}
 		return tuple{h, iface{}}
+	}
+}
+
+// serialiseT is serialise guided by the static type, so that struct fields tagged hash:"ignore" or
+// hash:"-" are left out as hashstructure does.
+func serialiseT(sb *hashBuf, t types.Type, v value, depth int) {
+	if depth > 60 {
+		panic(unsupported{"hash: structure too deep"})
+	}
+	switch tt := t.Underlying().(type) {
+	case *types.Struct:
+		st, ok := v.(structure)
+		if !ok {
+			serialise(sb, v, depth)
+			return
+		}
+		sb.WriteString("{")
+		for k := 0; k < tt.NumFields(); k++ {
+			tag := reflect.StructTag(tt.Tag(k)).Get("hash")
+			if tag == "ignore" || tag == "-" {
+				continue
+			}
+			serialiseT(sb, tt.Field(k).Type(), st[k], depth+1)
+		}
+		sb.WriteString("}")
+	case *types.Pointer:
+		p, ok := v.(*value)
+		if !ok {
+			serialise(sb, v, depth)
+			return
+		}
+		if p == nil {
+			sb.WriteString("nilp;")
+			return
+		}
+		sb.WriteString("&")
+		serialiseT(sb, tt.Elem(), *p, depth+1)
+	case *types.Slice:
+		xs, ok := v.([]value)
+		if !ok {
+			serialise(sb, v, depth)
+			return
+		}
+		fmt.Fprintf(sb, "s%d[", len(xs))
+		for _, x := range xs {
+			serialiseT(sb, tt.Elem(), x, depth+1)
+		}
+		sb.WriteString("]")
+	case *types.Interface:
+		in, ok := v.(iface)
+		if !ok || in.t == nil {
+			serialise(sb, v, depth)
+			return
+		}
+		sb.WriteString("i<" + in.t.String() + ">")
+		serialiseT(sb, in.t, in.v, depth+1)
+	default:
+		serialise(sb, v, depth)
 	}
 }
 
